@@ -72,10 +72,13 @@ SIGS = {
             'mcombob': [S('s'), S('t', '+'), S('o'), S('d', '<>'), S('m')],
             'mmath': [S('m', mode='math')], 'mtext': [S('m', mode='text')],
             'mnone': [], 'unk': [], ',': [],
+            # other parameterisations and slot orders
+            'mom': [S('m'), S('o')], 'mrp': [S('r', '()'), S('m')], 'mdp': [S('d', '()')],
+            'mtb': [S('t', '!'), S('m')], 'mvm': [S('m'), S('v')],
         },
         'envs': {
             'eenv': ([S('o'), S('m')], None), 'emath': ([], 'math'), 'eplain': ([], None),
-            'unkenv': ([], None),
+            'unkenv': ([], None), 'e2-x:y': ([], None), 'esd': ([S('s'), S('d', '()'), S('m')], None),
         },
         'specials': ['~', '+', '++'],
         'verb': False,
@@ -114,7 +117,7 @@ SIGS['c12'] = {
 }
 SIGS['default-noverb'] = dict(SIGS['default'], verb=False)
 SIGS['every-noverb'] = dict(SIGS['every'], macros={k: v for k, v in SIGS['every']['macros'].items()
-                                                   if k not in ('mv', 'mvb')})
+                                                   if not any(sl['k'] == 'v' for sl in v)})
 # which real context a signature table is parsed with
 CTX_OF = {'c12': 'c12', 'default-math': 'default', 'every-math': 'every', 'default': 'default', 'every': 'every', 'default-noverb': 'default',
           'every-noverb': 'every', 'every-strings': 'every-strings',
@@ -451,7 +454,9 @@ def normalise(items, sig, in_bracket=False, _top=True):
         if k == 'text':
             s = it[1]
             if in_bracket:
-                s = s.replace('[', '').replace(']', '')
+                # no bracket-type delimiter characters in the text of any bracket argument
+                for ch in '[]()':
+                    s = s.replace(ch, '')
             if not s:
                 continue
             it[1] = s
